@@ -925,3 +925,23 @@ def run(ctx):
         "cyclic chains of length 2 are not compared (the builders count the single bond differently)",
     ] + ([] if have_nx else ["networkx not importable: build_mpo of SparseOperatorBuilder skipped"])
     ctx.judge(real)
+
+
+def replay(ctx, rep):
+    """./check C19 quick --replay <file>: drive the recorded input again (case records) or re-judge the
+    recorded observation (tables, relations) with the Trace spec."""
+    rec = rep["record"]
+    have_nx = _have_networkx()
+    if rec.get("ev") == "case":
+        rng = np.random.default_rng(1900 + ctx.seed)
+        terms = [(complex(t["c"][0], t["c"][1]), [(o, int(r)) for o, r in t["ops"]]) for t in rec["terms"]]
+        labs = {l.name: l for l in U.labellings(int(rec["n"]), rng, with_species=True)}
+        lab = labs.get(rec.get("labelling"), labs["range"])
+        recs = [observe_case(terms, int(rec["n"]), bool(rec["jw"]), int(rec["pd"]), lab, int(rec.get("style", 0)), rng,
+                             have_nx, rich=True, nsectors=2, tid=1)]
+    else:
+        recs = [rec]
+    fails = ctx.validate("C19_Trace", "Trace.cfg", recs, name="replay", ntraces=1)
+    for f in fails:
+        print("replay: clause %s is FALSE" % f["clause"])
+    ctx.judge([f for f in fails if not f["clause"].startswith("NOTE:")])
